@@ -4514,6 +4514,7 @@ func rulePicastIdem(w *World, r *Report) {
 	n := 0
 	var check func(v ssa.Value, where string, seen map[ssa.Value]bool)
 	check = func(v ssa.Value, where string, seen map[ssa.Value]bool) {
+		v = resolveSpill(v)
 		if seen[v] {
 			return
 		}
